@@ -1,4 +1,5 @@
 import Xp.Proofs.C07
+import Xp.Proofs.C07Hist
 /-
 C07 — claim and XR exchange exactly the fields each side owns.
 
@@ -89,6 +90,21 @@ theorem claim_to_xr_meta (c : Cfg) (gen : String) (cm : KObj) (xr : Option KObj)
        else if reserved k then none else alookup k cm.anns) :=
   ⟨ssaPatch_labels c gen cm xr cs k, ssaPatch_anns c gen cm xr cs k⟩
 
+/-- **claim_to_xr**, in the store, first sync and re-sync (server-side syncer): every user
+field and composition selection field of the claim whose value is not itself an object
+(scalars and lists, which server-side apply treats as atoms here) is stored on the XR
+with exactly the claim's value, whatever the XR held and whatever was applied before;
+object values are merged key-wise by server-side apply (see `first_sync_creates_body`
+for the unmerged case). -/
+theorem claim_to_xr_stored (c : Cfg) (gen : String) (s : St) (cs : AL J) (k : String) (v : J)
+    (h : s.cm.spec = some (.obj cs)) (hnd : NoDup cs)
+    (hk : owner k = .user ∨ owner k = .shared) (hv : alookup k cs = some v) (hatom : ∀ l, v ≠ .obj l) :
+    ∃ y, (syncSSA c gen s).st.xr = some y ∧ alookup k y.specFields = some v := by
+  refine ⟨_, syncSSA_xr c gen s cs h, ?_⟩
+  have hp : alookup k (specToXR c s.cm (policyOf (xrSpecFields s.xr) == some "Manual") cs) = some v := by
+    have := (claim_to_xr c gen s.cm s.xr cs k).1 hk
+    rw [← hv]; exact this
+  exact applySSA_spec_set s.xr s.prev _ _ k v rfl (NoDup_specToXR _ _ _ cs hnd) hp hatom
 /-- **claim_to_xr** for the client-side syncer: the object it hands to Apply (create or
 merge patch) carries exactly the same spec law. -/
 theorem claim_to_xr_csa (c : Cfg) (gen : String) (cm : KObj) (xr : Option KObj) (cs : AL J) (k : String) :
@@ -157,6 +173,45 @@ theorem xr_owned_preserved (c : Cfg) (gen : String) (s : St) (cs : AL J) (x : KO
     · intro q hq; exact hprev q hq k hk
   · rw [hx]; rfl
   · rw [hx]; rfl
+
+/-- **xr_owned_preserved**, external name: an external name the XR already has survives the
+server-side sync in the store, whatever external name the claim carries. -/
+theorem external_name_preserved (c : Cfg) (gen : String) (s : St) (cs : AL J) (x : KObj)
+    (h : s.cm.spec = some (.obj cs)) (hx : s.xr = some x) (hen : extName (some x) ≠ "")
+    (hnd : NoDup s.cm.anns) :
+    extName (syncSSA c gen s).st.xr = extName (some x) := by
+  rw [syncSSA_xr c gen s cs h, hx]
+  have hp : (ssaPatch c gen s.cm (some x) cs).annotations =
+      setAnn (nonEmptyUnreserved s.cm.annotations) extNameKey (extName (some x)) := by
+    have : (extName (some x) != "") = true := by simp [hen]
+    simp only [ssaPatch, this, if_true]
+  have hnd' : NoDup ((setAnn (nonEmptyUnreserved s.cm.annotations) extNameKey (extName (some x))).getD []) :=
+    NoDup_setAnn _ _ _ (NoDup_nonEmptyUnreserved _ hnd)
+  have hl : alookup extNameKey ((setAnn (nonEmptyUnreserved s.cm.annotations) extNameKey (extName (some x))).getD []) =
+      some (extName (some x)) := by rw [anns_setAnn]; simp
+  cases hs : setAnn (nonEmptyUnreserved s.cm.annotations) extNameKey (extName (some x)) with
+  | none =>
+    rw [hs] at hl; simp at hl
+  | some m =>
+    rw [hs] at hl hnd'
+    simp only [Option.getD_some] at hl hnd'
+    have : ∃ d, (applySSA (some x) s.prev (ssaPatch c gen s.cm (some x) cs)).annotations =
+        some (addAll d m) := by
+      simp only [applySSA, hp, hs]
+      exact ⟨_, rfl⟩
+    obtain ⟨d, hd⟩ := this
+    have hgoal : alookup extNameKey (applySSA (some x) s.prev (ssaPatch c gen s.cm (some x) cs)).anns =
+        some (extName (some x)) := by
+      simp only [KObj.anns, hd, Option.getD_some]
+      rw [alookup_addAll _ _ _ hnd', hl]; rfl
+    show (alookup extNameKey (applySSA (some x) s.prev (ssaPatch c gen s.cm (some x) cs)).anns).getD "" = _
+    rw [hgoal]; rfl
+/-- First sync: when no XR exists the server-side apply creates exactly the applied
+object (so everything `claim_to_xr` says of the body holds of the stored XR). -/
+theorem first_sync_creates_body (c : Cfg) (gen : String) (s : St) (cs : AL J)
+    (h : s.cm.spec = some (.obj cs)) (hx : s.xr = none) :
+    (syncSSA c gen s).st.xr = some { ssaPatch c gen s.cm none cs with status := none } := by
+  rw [syncSSA_xr c gen s cs h, hx]; rfl
 
 /-- **xr_owned_preserved**, client-side syncer: the JSON merge patch (or the skipped
 no-op patch) leaves the same keys and the status of the stored XR unchanged. -/
@@ -294,5 +349,96 @@ theorem xr_to_claim_fails_for_csa_on_unfixed_witness :
     -- the server-side syncer on the same state does not copy it
     (alookup "region" (syncSSA wcfg "g" d10Witness).st.cm.specFields).isNone = true := by decide
 
+
+/-! ### the hypotheses are satisfiable by non-trivial states -/
+
+/-- a re-sync of a claim with user fields (one nesting machinery names), claim-only and
+each-side machinery against an XR holding composed-resource references, its own secret
+reference, an external name, conditions and a user status field -/
+def exampleState : St :=
+  { cm := { name := "my-claim"
+            labels := [("team", "a"), ("app.kubernetes.io/name", "x")]
+            annotations := some [("kubectl.kubernetes.io/last-applied-configuration", "{}"), ("crossplane.io/external-name", "claim-ext")]
+            spec := some (.obj [("region", .str "eu"), ("params", .obj [("resourceRef", .str "nested")]),
+                                ("compositionSelector", .obj [("matchLabels", .obj [])]),
+                                ("compositeDeletePolicy", .str "Foreground"),
+                                ("writeConnectionSecretToRef", .obj [("name", .str "cm-secret")]),
+                                ("resourceRef", xrRefJ wcfg "my-claim-x")])
+            status := some (.obj [("conditions", .arr [.obj [("type", .str "Ready")]])]) }
+    xr := some { name := "my-claim-x"
+                 annotations := some [("crossplane.io/external-name", "xr-ext")]
+                 spec := some (.obj [("claimRef", claimRefJ wcfg { name := "my-claim" }), ("region", .str "old"),
+                                     ("resourceRefs", .arr [.obj [("name", .str "cd-0")]]),
+                                     ("writeConnectionSecretToRef", .obj [("name", .str "xr-secret")]),
+                                     ("compositionRef", .obj [("name", .str "comp")])])
+                 status := some (.obj [("conditions", .arr [.obj [("type", .str "Synced")]]), ("address", .str "10.0.0.1")]) }
+    prev := some { name := "my-claim-x", spec := some (.obj [("region", .str "old"), ("size", .num 3)]) } }
+
+example : ClaimValid exampleState.cm.specFields ∧ NoDup exampleState.cm.anns ∧ Inv exampleState := by
+  have hv : ClaimValid exampleState.cm.specFields := by
+    intro k hk
+    have h1 : k = "claimRef" ∨ k = "resourceRefs" := by
+      by_cases hm : k ∈ machineryKeys
+      · revert hk; revert k; decide
+      · rw [owner_user_of_not_machinery k hm] at hk; cases hk
+    rcases h1 with h1 | h1 <;> subst h1 <;> decide
+  refine ⟨hv, by unfold NoDup akeys; decide, hv, ?_⟩
+  intro q hq k hk
+  cases hq
+  rcases hk with hk | hk
+  · have h1 : k = "writeConnectionSecretToRef" ∨ k = "publishConnectionDetailsTo" := by
+      by_cases hm : k ∈ machineryKeys
+      · revert hk; revert k; decide
+      · rw [owner_user_of_not_machinery k hm] at hk; cases hk
+    rcases h1 with h1 | h1 <;> subst h1 <;> decide
+  · subst hk; decide
+
+/-- what the theorems say, evaluated on that state: the XR keeps its own fields and
+external name and receives the claim's user fields; the claim keeps its conditions,
+receives the XR's user status and composition reference, and none of the XR's machinery -/
+example :
+    let o := syncSSA wcfg "g" exampleState
+    let y := o.st.xr.getD { name := "" }
+    o.err = "" ∧ o.st.xr.isSome ∧
+    strAt "region" y = "eu" ∧ (alookup "size" y.specFields).isNone ∧
+    (alookup "resourceRefs" y.specFields).isSome ∧ (alookup "compositeDeletePolicy" y.specFields).isNone ∧
+    (match alookup "writeConnectionSecretToRef" y.specFields with
+     | some (.obj [("name", .str v)]) => v
+     | _ => "") = "xr-secret" ∧
+    extName o.st.xr = "xr-ext" ∧ (alookup "app.kubernetes.io/name" y.labels).isNone ∧
+    alookup "team" y.labels = some "a" ∧
+    (match alookup "address" o.st.cm.statusFields with | some (.str v) => v | _ => "") = "10.0.0.1" ∧
+    (match alookup "conditions" o.st.cm.statusFields with
+     | some (.arr [.obj [("type", .str v)]]) => v
+     | _ => "") = "Ready" ∧
+    (alookup "resourceRefs" o.st.cm.specFields).isNone ∧ (alookup "compositionRef" o.st.cm.specFields).isSome := by
+  decide
+
+/-! ### first sync and re-sync: every history -/
+
+/-- Along every history of syncs (either syncer), user edits of the claim that the API
+server admits, XR-controller writes and managed-field upgrades, starting from a valid
+claim that the claim controller has not applied yet: the claim stays free of XR-only
+machinery and the configuration last applied by the claim controller's field manager
+never mentions a key the XR side owns (the hypothesis of `xr_owned_preserved`). -/
+theorem prev_never_owns (c : Cfg) (s0 : St) (ops : List Op)
+    (h0 : ClaimValid s0.cm.specFields) (hp : s0.prev = none) (hv : ∀ op ∈ ops, ValidOp op) :
+    Inv (run c s0 ops) :=
+  inv_run c ops s0 ⟨h0, fun q hq => by rw [hp] at hq; cases hq⟩ hv
+
+/-- **xr_owned_preserved**, every history: at any server-side sync anywhere in any
+admitted history, the stored XR keeps its `resourceRefs`, `writeConnectionSecretToRef`,
+`publishConnectionDetailsTo`, status and name. -/
+theorem xr_owned_preserved_history (c : Cfg) (s0 : St) (pre post : List Op) (gen : String)
+    (h0 : ClaimValid s0.cm.specFields) (hp : s0.prev = none)
+    (hv : ∀ op ∈ pre ++ Op.syncSSA gen :: post, ValidOp op)
+    (x : KObj) (cs : AL J) (hx : (run c s0 pre).xr = some x) (hcs : (run c s0 pre).cm.spec = some (.obj cs)) :
+    ∃ y, (syncSSA c gen (run c s0 pre)).st.xr = some y ∧
+      (∀ k, XrOwned k → alookup k y.specFields = alookup k x.specFields) ∧
+      y.status = x.status ∧ y.name = x.name := by
+  have hinv := prev_never_owns c s0 pre h0 hp (fun op ho => hv op (List.mem_append_left _ ho))
+  have hvalid : ClaimValid cs := by
+    have := hinv.1; simpa [KObj.specFields, hcs, objFields] using this
+  exact xr_owned_preserved c gen _ cs x hcs hx hvalid hinv.2
 
 end Xp.C07
